@@ -56,9 +56,21 @@ fn gen_script() -> Script {
     let mut lo_next = 0usize;
     let want_bad = chance(1, 6);
     let bad_at = choose(n as u32) as usize;
+    // a quarter of the scripts live at the edge of the 260-byte receive buffer: replies of 247-259 bytes, so
+    // that frames glued into one read end, or have their header end, exactly at the buffer's capacity
+    let big = chance(1, 4);
     for i in 0..n {
         let tx = i as u16;
-        let req = gen_valid_req(chance(3, 4));
+        let req = if big {
+            let count = 119 + choose(7) as u16;
+            if chance(1, 2) {
+                Req::ReadHolding { start: choose(100) as u16, count }
+            } else {
+                Req::ReadInput { start: choose(100) as u16, count }
+            }
+        } else {
+            gen_valid_req(chance(3, 4))
+        };
         let unit = UNIT_POOL[choose(4) as usize];
         let timeout = [1000 * MS, 5000 * MS, 60_000 * MS][choose(3) as usize];
         let style = if chance(1, 3) { Style::Callback } else { Style::Future };
@@ -287,11 +299,10 @@ pub fn run(cfg: &ScenCfg, out: &mut RunOut) {
     let describe = || format!("{} requests, {}-byte peer stream of {} frames, cuts {:?}, event positions {:?} (frame-aligned run: {:?})", sc.steps.len(), sc.stream.len(), sc.frame_ends.len(), &cuts[..cuts.len().min(12)], pos_b, pos_a);
     if a.comps != b.comps {
         let i = a.comps.iter().zip(b.comps.iter()).position(|(x, y)| x != y).unwrap_or(a.comps.len().min(b.comps.len()));
-        out.violate(
-            "C05",
-            "client_chunking_changes_results",
-            format!("{}: frame-by-frame delivery completed {:?}, chunked delivery {:?}", describe(), a.comps.get(i), b.comps.get(i)),
-        );
+        let d = format!("{}: frame-by-frame delivery completed {:?}, chunked delivery {:?}", describe(), a.comps.get(i), b.comps.get(i));
+        out.violate("C05", "client_chunking_changes_results", d.clone());
+        // the outcome of a request (value, time-out, which error) must not depend on how the peer's bytes were cut
+        out.violate("C10", "client_chunking_changes_results", d);
     } else if a.wire != b.wire {
         out.violate("C05", "client_chunking_changes_requests", format!("{}: request bytes differ ({} vs {})", describe(), a.wire.len(), b.wire.len()));
     } else if a.closed != b.closed {
